@@ -39,7 +39,7 @@ fn or3(a: V3, b: V3) -> V3 {
     not3(and3(not3(a), not3(b)))
 }
 
-const NFORMS: usize = 12;
+const NFORMS: usize = 15;
 const COLS: [&str; 4] = ["a", "b", "c", "d"];
 
 #[derive(Clone, Debug)]
@@ -65,7 +65,7 @@ fn leaf_val(form: usize, x: Option<bool>) -> V3 {
         None => N,
     };
     match form {
-        0 | 1 | 4 | 5 | 8 | 10 => t,
+        0 | 1 | 4 | 5 | 8 | 10 | 14 => t,
         2 => not3(t),
         3 => {
             if x.is_none() {
@@ -90,6 +90,15 @@ fn leaf_val(form: usize, x: Option<bool>) -> V3 {
             }
         }
         11 => F,
+        // custom SQL fragments whose own text has a loose top-level operator: `c = 1 OR c = 0`, `NOT c`
+        12 => {
+            if x.is_none() {
+                N
+            } else {
+                T
+            }
+        }
+        13 => not3(t),
         _ => unreachable!(),
     }
 }
@@ -109,6 +118,16 @@ fn leaf_expr(atom: usize, form: usize) -> SimpleExpr {
         9 => c().eq(1).or(c().eq(0)),
         10 => c().eq(1).and(c().eq(1)),
         11 => SimpleExpr::Constant(false.into()),
+        // OR whose right operand is not itself a binary expression
+        14 => c().eq(1).or(SimpleExpr::from(c())),
+        12 => Expr::cust(format!("\"{0}\" = 1 OR \"{0}\" = 0", COLS[atom])),
+        13 => {
+            if crate::apply::route(2) == 0 {
+                Expr::cust(format!("NOT \"{}\"", COLS[atom]))
+            } else {
+                Expr::cust_with_values(format!("NOT \"{}\" = ?", COLS[atom]), [1])
+            }
+        }
         _ => unreachable!(),
     }
 }
